@@ -157,6 +157,67 @@ def decoder_layouts(tree, fields, tags):
     return out
 
 
+def _range_guard(fn):
+    """(lo, hi) such that the function raises unless lo <= value < hi, read off its raising guard; None if not recognised.
+    Accepted spellings: `if not lo <= v < hi`, `if v < lo or v >= hi`, `if not (lo <= v and v < hi)`, with <= hi-1 variants."""
+    from ..cfg import build as _b
+    p0 = params(fn, False)[0]
+    g = _b(fn, split=True)
+    lo = hi = None
+    is_v = lambda e: isinstance(e, ast.Name) and e.id == p0
+
+    def note(cmp_left, op, cmp_right, truth):
+        """the comparison `left op right` has value `truth` on the accepted (non-raising) path"""
+        nonlocal lo, hi
+        l, r = cmp_left, cmp_right
+        if is_v(r) and not is_v(l):
+            l, r = r, l
+            op = {ast.Lt: ast.Gt, ast.Gt: ast.Lt, ast.LtE: ast.GtE, ast.GtE: ast.LtE}.get(op, op)
+        k = eval_int(r)
+        if not is_v(l) or k is None:
+            return
+        if not truth:
+            op = {ast.Lt: ast.GtE, ast.GtE: ast.Lt, ast.Gt: ast.LtE, ast.LtE: ast.Gt}.get(op, op)
+        if op is ast.GtE:
+            lo = k
+        elif op is ast.Gt:
+            lo = k + 1
+        elif op is ast.Lt:
+            hi = k
+        elif op is ast.LtE:
+            hi = k + 1
+    # walk the conditions: on an edge from which the normal exit is reachable without a raise the condition has that value
+    raises = set(g.nodes(lambda s: isinstance(s, ast.Raise)))
+    for n, s in g.stmt.items():
+        test = s[1] if (isinstance(s, tuple) and s[0] == "COND") else (s.test if isinstance(s, ast.If) and not g._is_compound_test(s.test) else None)
+        if test is None:
+            continue
+        neg = False
+        while isinstance(test, ast.UnaryOp) and isinstance(test.op, ast.Not):
+            neg = not neg
+            test = test.operand
+        if not isinstance(test, ast.Compare):
+            continue
+        for (y, lab) in g.succ[n]:
+            if lab not in ('T', 'F'):
+                continue
+            reach = g.reach([y], explicit_only=True)
+            accepted = g.exit in reach and not (reach & raises and g.exit not in g.reach([y], avoid_nodes=raises, explicit_only=True))
+            always_raises = g.exit not in reach
+            if always_raises:
+                continue
+            val = (lab == 'T') != neg
+            # chained comparison lo <= v < hi
+            left = test.left
+            for op, right in zip(test.ops, test.comparators):
+                if val:
+                    note(left, type(op), right, True)
+                elif len(test.ops) == 1:
+                    note(left, type(op), right, False)
+                left = right
+    return (lo, hi) if lo is not None and hi is not None else None
+
+
 def r1(tree, rep):
     fields = _namedtuples(tree)
     tags = _tags(tree)
@@ -218,6 +279,11 @@ def r1(tree, rep):
                 and c.func.attr == meth and isinstance(c.func.value, ast.Name) and c.func.value.id in structs]
         return out
     fm1, fm2 = fmts(tb, "pack"), fmts(fb, "unpack")
+    # the encoder's own domain check is exactly 0 <= value < 2**32 (what from_be4 can return)
+    bounds = _range_guard(tb)
+    rep.check("C12.R1", "to_be4 accepts exactly the values 0 .. 2**32-1 (rejects %s)" % (bounds,), bounds == (0, 2 ** 32), site(tb, ENC),
+              key="C12.R1:to_be4-domain", what="to_be4 accepts the range %s instead of [0, 2**32): a legal 32-bit id / seqnum cannot be encoded "
+              "(or an illegal one is)" % (bounds,))
     rep.check("C12.R1", "to_be4/from_be4 use the same 4-byte big-endian struct format", fm1 == fm2 == [">L"] or (fm1 == fm2 and len(fm1) == 1 and fm1[0] in (">L", ">I", "!L", "!I")),
               ENC, key="C12.R1:be4-format", what="to_be4 packs %s, from_be4 unpacks %s" % (fm1, fm2))
 
@@ -458,6 +524,16 @@ def r4(tree, rep):
             lo = _rl(ge, lo)
         okc = okc and sb is not None and is_self_attr(sb[0], "_buffer") and sb[2] is None and isinstance(lo, ast.Call) and dotted(lo.func) == "len" \
             and len(lo.args) == 1 and isinstance(lo.args[0], ast.Name) and lo.args[0].id == exp
+    # a complete match wins over everything else: Disconnect is raised only when the buffer does NOT start with the expected bytes
+    from ..cfg import truthy_atom as _ta
+    gg = build(ge, split=True)
+    complete = _ta(lambda e: isinstance(e, ast.Call) and isinstance(e.func, ast.Attribute) and e.func.attr == "startswith"
+                   and is_self_attr(e.func.value, "_buffer") and len(e.args) == 1 and isinstance(e.args[0], ast.Name) and e.args[0].id == exp)
+    rs2 = gg.nodes(lambda s: isinstance(s, ast.Raise))
+    rep.check("C12.R4", "_get_expected raises Disconnect only when the buffer does not start with the expected bytes (a match that is followed "
+              "by more bytes in the same segment is a match)", bool(rs2) and bool(gg.cond_edges(complete, True)) and not gg.only_when(rs2, complete, False),
+              site(ge, CON), key="C12.R4:_get_expected:match-first",
+              what="a correct prologue / relay reply followed by further bytes in the same read is treated as a bad one: the honest connection is dropped")
     rep.check("C12.R4", "_get_expected consumes exactly len(expected) bytes of the buffer on a match", okc, site(cons[0], CON) if cons else site(ge, CON),
               key="C12.R4:_get_expected:consume",
               what="after the relay reply / prologue is recognised, bytes that arrived in the same segment (the handshake frame) are discarded or kept twice")
